@@ -13,6 +13,11 @@ pub struct ExInstant(Instant);
 pub assume_specification [Instant::now] () -> (r: Instant);
 pub assume_specification [Instant::elapsed] (i: &Instant) -> (r: Duration);
 
+// ---- std::net ----
+#[verifier::external_type_specification]
+#[verifier::external_body]
+pub struct ExSocketAddr(SocketAddr);
+
 /// `Option::get_or_insert_with` (prophecy form for the returned `&mut`): the option is `Some` afterwards,
 /// an existing value is kept, the closure is only called when the option was `None`.
 pub assume_specification<'a, T, G: FnOnce() -> T> [Option::<T>::get_or_insert_with] (o: &'a mut Option<T>, f: G) -> (r: &'a mut T)
